@@ -188,7 +188,7 @@ def run(rep, tier, rng):
     rep.rule = ("exhaustive over the class table: every declared child of every concrete class probed on the real classes (construct/write/read/compare), every "
                 "exclusivity group checked statically and by a two-member construction; plus %d random instances per class through to_etree and from_etree, model vs "
                 "implementation. non-trivial = the implementation returned a value; distinct by case text" % per_class)
-    bad = C.coq_bad_indices(PROP, "convert", IMPORTS, "ccase_ok S", "ccase", items, shard=60, prelude="Local Open Scope string_scope.")
+    bad = C.coq_bad_indices(PROP, "convert", IMPORTS, "ccase_ok S", "ccase", items, shard=150, prelude="Local Open Scope string_scope.")
     for i in bad[:30]:
         rep.disagreements.append({"what": meta[i][0], "class": meta[i][1], "case": items[i][:1500]})
     # when the kernel-evaluated obligation no longer holds, show its witnesses
